@@ -600,8 +600,14 @@ def verify_unit(cname, case_label, tier, seed):
             if C.call is not None:
                 return it.call_function(C.call, [], a) if inspect.isfunction(C.call) else C.call(**a)
             return it.call(C.target, [], a)
-        paths = explore(run, parent=pre_path, max_paths=C.max_paths) if C.target is not None \
-            else [(Path(), ('ret', None))]
+        from . import interp as _interp
+        _interp.PRUNE.update(on=bool(getattr(C, 'prune', False)), assume=list(pre_hyps), cache={},
+                             budget=float(getattr(C, 'prune_budget', 3.0)))
+        try:
+            paths = explore(run, parent=pre_path, max_paths=C.max_paths) if C.target is not None \
+                else [(Path(), ('ret', None))]
+        finally:
+            _interp.PRUNE['on'] = False
         res['paths'] = len(paths)
         for pi, (p, outcome) in enumerate(paths):
             if uses_calls:
